@@ -289,6 +289,21 @@ def spec_dist(v):
     return np.sqrt((v["R"] + v["zdet"]) ** 2 - c2) - np.sqrt((v["R"] + v["z"]) ** 2 - c2)
 
 
+def stage(ck, full=False):
+    n = 6 if ck.tier == "quick" else 30
+    qn = "eas:EAS.__call__"
+    ev = {"beta": (0.0, 0.7330382858376184), "alt": (-5.0, 40.0), "E": (1e-5, 1e4), "lat": (-1.5, 1.5), "lon": (-3.1, 3.1), "dph": (0.0, 1e6), "th": (0.0, 10.0)}
+    sc = Scenario(qn, build_eas, events=ev, scalars={"area": (1e-3, 100.0), "qe": (1e-3, 1.0), "thr": (1e-2, 1e3)})
+    fc = FunctionCheck(ck, qn, sc, spec_eas, ["numPEs", "costhetaChEff", "stored_names", "kernel_called_once"])
+    fc.explore().obligations()
+    kernel_call_obligations(ck, fc, qn)
+    if full:
+        fc.definedness_obligations(lambda what, where: what in ("division", "log", "sqrt"))
+        enhancement_lemmas(ck, fc, qn)
+        fc.crosscheck(n)
+    return fc
+
+
 def run(ck):
     ck.assume("CphotAng.__call__ returns one (density, angle) pair per event it is given, in order (C10); here an abstract per-event function",
               "intrinsic Cherenkov angle >= 0 and photon density >= 0 (sign contracts of the kernel, C06)",
@@ -298,16 +313,7 @@ def run(ck):
                 "nuspacesim/simulation/eas_optical/shower_properties.py"):
         ck.add_file(rel)
     n = 6 if ck.tier == "quick" else 30
-
-    qn = "eas:EAS.__call__"
-    ev = {"beta": (0.0, 0.7330382858376184), "alt": (-5.0, 40.0), "E": (1e-5, 1e4), "lat": (-1.5, 1.5), "lon": (-3.1, 3.1), "dph": (0.0, 1e6), "th": (0.0, 10.0)}
-    sc = Scenario(qn, build_eas, events=ev, scalars={"area": (1e-3, 100.0), "qe": (1e-3, 1.0), "thr": (1e-2, 1e3)})
-    fc = FunctionCheck(ck, qn, sc, spec_eas, ["numPEs", "costhetaChEff", "stored_names", "kernel_called_once"])
-    fc.explore().obligations()
-    fc.definedness_obligations(lambda what, where: what in ("division", "log", "sqrt"))
-    kernel_call_obligations(ck, fc, qn)
-    enhancement_lemmas(ck, fc, qn)
-    fc.crosscheck(n)
+    stage(ck, full=True)
 
     run_dependency(ck)
 
